@@ -9,7 +9,8 @@ import (
 // zlib writer/reader models.  Contract (DESIGN.md 3.2): lossless, a reader
 // consumes exactly its stream.  On concrete bytes the real zlib is used; on
 // symbolic bytes a stored-block codec is used, which is what deflate emits for
-// incompressible data (11 bytes of overhead per <=65535-byte block).
+// incompressible data (2-byte header, 5 bytes per 16k stored block, an empty
+// final stored block, 4-byte checksum: 16 bytes of overhead for a small block).
 
 type zwObj struct {
 	dst  Val
@@ -180,14 +181,25 @@ func (m *Machine) zlibIntrinsic(name string, args []Val) (Val, bool) {
 			zw.Close()
 			stream = &Array{isByte: true, b: out.Bytes()}
 		} else {
+			// what compress/flate emits for incompressible data: stored
+			// blocks of 16k, an empty final stored block, Adler-32
 			n := z.n
-			if n > 65535 {
-				panic(pathAbort{"cut: symbolic zlib payload above one stored block"})
+			const chunk = 16384
+			nblk := (n + chunk - 1) / chunk
+			stream = newByteArray(2 + 5*nblk + n + 5 + 4)
+			stream.b[0], stream.b[1] = 0x78, 0xda
+			p := 2
+			for off := 0; off < n; off += chunk {
+				l := n - off
+				if l > chunk {
+					l = chunk
+				}
+				copy(stream.b[p:], []byte{0x00, byte(l), byte(l >> 8), ^byte(l), ^byte(l >> 8)})
+				p += 5
+				copyRange(stream, p, z.data, off, l)
+				p += l
 			}
-			hdr := []byte{0x78, 0xda, 0x01, byte(n), byte(n >> 8), ^byte(n), ^byte(n >> 8)}
-			stream = newByteArray(len(hdr) + n + 4)
-			copy(stream.b, hdr)
-			copyRange(stream, len(hdr), z.data, 0, n)
+			copy(stream.b[p:], []byte{0x01, 0x00, 0x00, 0xff, 0xff})
 		}
 		sz := stream.size()
 		r := m.invoke(z.dst, "Write", Slice{arr: stream, len: sz, cap: sz}).(Tuple)
